@@ -30,10 +30,19 @@ func listSweep[T any](add func(string, ...any), tag string, n int, want []T, eq 
 	evals := 0
 	for limit := uint64(1); limit <= uint64(n)+1; limit++ {
 		for _, mode := range []string{"key", "offset"} {
-			for _, ct := range []bool{false, true} {
+			for ci, ct := range []bool{false, true, false} {
+				// third round: the same walk in reverse order, for the smallest, the second and the largest page size
+				rev := ci == 2
+				if rev && limit != 1 && limit != 2 && limit != uint64(n)+1 {
+					continue
+				}
 				evals++
-				got, total, _, err := pageAll(fetch, limit, mode, ct)
-				t := fmt.Sprintf("%s limit=%d %s count_total=%v", tag, limit, mode, ct)
+				walk := pageAll[T]
+				if rev {
+					walk = pageAllRev[T]
+				}
+				got, total, _, err := walk(fetch, limit, mode, ct)
+				t := fmt.Sprintf("%s limit=%d %s count_total=%v reverse=%v", tag, limit, mode, ct, rev)
 				if err != nil {
 					add("%s failed: %v", t, err)
 					continue
@@ -332,8 +341,8 @@ func init() {
 	Checks["C20"] = func() *Check {
 		return &Check{ID: "C20",
 			Runs: []Run{{S: c20Scenario(), Opt: map[Tier]Options{
-				Quick:    {Depth: 3, Budget: 120 * time.Second, ReplayEvery: 16},
-				Thorough: {Depth: 4, Budget: 25 * time.Minute, ReplayEvery: 32, MaxStates: 100000},
+				Quick:    {Depth: 2, Budget: 120 * time.Second, ReplayEvery: 8},
+				Thorough: {Depth: 4, Budget: 15 * time.Minute, ReplayEvery: 32, MaxStates: 100000},
 			}}},
 			Owns: ownsAny("listquery"),
 			Extra: func(t Tier, ev *Evidence) []Violation {
